@@ -5,7 +5,7 @@
  * case : <termtype> <hexstream> <cut>,<cut>,..|- [tokens of the whole stream: ignored here]
  * obs  : k<type>:<mod>:<hexstr>   key event (type 1 = KEY, 2 = TEXT)
  *        m<type>:<button>:<line>:<col>:<mod>   mouse event (1 press, 2 drag, 3 release, 4 wheel)
- *        a<msec>   tickit_term_input_check_timeout_msec at the end (-1 = not armed; the clock
+ *        a<msec>   tickit_term_input_check_timeout_msec after each chunk (-1 = not armed; the clock
  *                  is frozen by a link-time gettimeofday, so an armed time-out reads 50)
  *        h<mask>   TickitTerm.mouse_buttons_held at the end
  * term.c is included so that the private held-button field can be read. */
@@ -61,6 +61,7 @@ int main(void)
         memcpy(chunk, b + pos, cut - pos);
         tickit_term_input_push_bytes(tt, chunk, cut - pos);
         free(chunk);
+        OUT("a%d ", tickit_term_input_check_timeout_msec(tt));
         pos = cut;
       }
     }
